@@ -71,6 +71,11 @@ CHECKS: dict[str, dict] = {
         technique="stateless schedule enumeration of N concurrent senders on the real asyncio client over a tiny fake pipe (peer drain steps placed at loop-iteration boundaries, deviation-bounded) plus explicit-state BFS to a fixpoint over the real FairLock",
         text="Every explored interleaving of 2-3 concurrent send_packet calls (three chunks per packet, transport suspending at arbitrary points) leaves a wire that parses into exactly the multiset of sent packets, each contiguous, per-sender order kept, every call succeeding; on the raw endpoint the loser gets BusyResourceError and the wire stays intact; every reachable FairLock state satisfies mutual exclusion, FIFO hand-off and no lost wake-up.",
     ),
+    "C14": dict(
+        cat="fault_enumeration", ref="DESIGN.md §3 C14", engine="E2 vloop + mc/envsched.py + mc/memtransport.py",
+        technique="crash-point enumeration on the real asyncio loop: task.cancel() of the closing task and a second aclose() injected at every loop-iteration boundary of every close path, crossed with leaf-transport faults (raise / slow / block forever) and peer behaviours (reads later / never)",
+        text="For every close path and every injected cancellation point and leaf fault: when the closing task has finished (returned, raised, cancelled) every leaf transport / socket is closed, is_closing() is true, a concurrent second close returns no later than 3 iterations after the first, a later close returns at once; both halves of a stapled pair are closed even if closing the first fails.",
+    ),
 }
 
 NOT_YET: dict[str, str] = {}
